@@ -11,3 +11,5 @@ BINS += c19_containers
 c19_containers_OBJS := c19_containers
 BINS += e3_hist
 e3_hist_OBJS := e3_hist common/domreg $(DOM_OBJS)
+BINS += c12_exact
+c12_exact_OBJS := c12_exact common/domreg $(DOM_OBJS)
